@@ -73,6 +73,25 @@ func init() {
 			return "", fmt.Errorf("exceedsTruncateThreshold: %w", err)
 		}
 		fmt.Fprintf(&sb, "\n/-- db.go: (*DB).exceedsTruncateThreshold -/\ndef exceedsTruncateThreshold (pageSize truncatePageN %s : Nat) : Bool :=\n  %s\n", pn[0], body)
+		// the two gates around the checkpoint decision: syncLocked's `if … { checkpointIfNeeded }` and Sync's loop exit
+		gate, err := condAround(p, "DB", "syncLocked", "checkpointIfNeeded")
+		if err != nil {
+			return "", err
+		}
+		g1, err := boolExpr(p, gate)
+		if err != nil {
+			return "", fmt.Errorf("syncLocked gate: %w", err)
+		}
+		fmt.Fprintf(&sb, "\n/-- db.go: syncLocked — the condition under which checkpointIfNeeded runs -/\ndef checkpointGate (synced limited syncedToWALEnd exceedsTruncate : Bool) : Bool :=\n  %s\n", g1)
+		exit, err := condAround(p, "DB", "Sync", "return nil")
+		if err != nil {
+			return "", err
+		}
+		g2, err := boolExpr(p, exit)
+		if err != nil {
+			return "", fmt.Errorf("Sync loop exit: %w", err)
+		}
+		fmt.Fprintf(&sb, "\n/-- db.go: Sync — the condition under which the chunk loop stops -/\ndef syncLoopExit (synced limited syncedToWALEnd exceedsTruncate : Bool) : Bool :=\n  %s\n", g2)
 		sb.WriteString("\nend Litestream.Gen.Ck\n")
 		return sb.String(), nil
 	}
@@ -86,4 +105,92 @@ func paramNames(fd *ast.FuncDecl) []string {
 		}
 	}
 	return out
+}
+
+// condAround returns the condition of the innermost `if` in recv.fn whose body (not else) contains
+// a call to `callee` (or, for "return nil", a `return nil` statement directly in its body).
+func condAround(p *pkg, recv, fn, callee string) (ast.Expr, error) {
+	fd, err := p.funcDecl(recv, fn)
+	if err != nil {
+		return nil, err
+	}
+	var found ast.Expr
+	ast.Inspect(fd.Body, func(n ast.Node) bool {
+		is, ok := n.(*ast.IfStmt)
+		if !ok {
+			return true
+		}
+		hit := false
+		for _, st := range is.Body.List {
+			if callee == "return nil" {
+				if rs, ok := st.(*ast.ReturnStmt); ok && len(rs.Results) == 1 {
+					if id, ok := rs.Results[0].(*ast.Ident); ok && id.Name == "nil" {
+						// only the `else if` exit of the loop carries the result-based condition
+						if _, isBin := is.Cond.(*ast.BinaryExpr); isBin && strings.Contains((&tctx{p: p}).src(is.Cond), "result.") {
+							hit = true
+						}
+					}
+				}
+				continue
+			}
+			ast.Inspect(st, func(m ast.Node) bool {
+				if ce, ok := m.(*ast.CallExpr); ok {
+					if sel, ok := ce.Fun.(*ast.SelectorExpr); ok && sel.Sel.Name == callee {
+						hit = true
+					}
+				}
+				return true
+			})
+		}
+		if hit {
+			found = is.Cond
+		}
+		return true
+	})
+	if found == nil {
+		return nil, fmt.Errorf("%s.%s: no `if` around %s found", recv, fn, callee)
+	}
+	return found, nil
+}
+
+// boolExpr translates a condition over result.synced / result.limited / result.syncedToWALEnd /
+// db.exceedsTruncateThreshold(...) into a Lean Bool term.
+func boolExpr(p *pkg, e ast.Expr) (string, error) {
+	switch x := e.(type) {
+	case *ast.ParenExpr:
+		s, err := boolExpr(p, x.X)
+		return "(" + s + ")", err
+	case *ast.UnaryExpr:
+		if x.Op.String() == "!" {
+			s, err := boolExpr(p, x.X)
+			return "!" + s, err
+		}
+	case *ast.BinaryExpr:
+		op := map[string]string{"||": " || ", "&&": " && "}[x.Op.String()]
+		if op != "" {
+			a, err := boolExpr(p, x.X)
+			if err != nil {
+				return "", err
+			}
+			b, err := boolExpr(p, x.Y)
+			if err != nil {
+				return "", err
+			}
+			return "(" + a + op + b + ")", nil
+		}
+	case *ast.SelectorExpr:
+		if id, ok := x.X.(*ast.Ident); ok && id.Name == "result" {
+			switch x.Sel.Name {
+			case "synced", "limited", "syncedToWALEnd":
+				return x.Sel.Name, nil
+			}
+		}
+	case *ast.CallExpr:
+		if sel, ok := x.Fun.(*ast.SelectorExpr); ok && sel.Sel.Name == "exceedsTruncateThreshold" && len(x.Args) == 1 {
+			if (&tctx{p: p}).src(x.Args[0]) == "result.origWALSize" {
+				return "exceedsTruncate", nil
+			}
+		}
+	}
+	return "", fmt.Errorf("condition outside the translatable subset: %s", (&tctx{p: p}).src(e))
 }
